@@ -69,9 +69,34 @@ def benign_table():
     return "\n".join(rows)
 
 
+def summary_last_column(s):
+    """section 0 table: the last cell of each `| Cxx |` row lists the repairs and findings of that property"""
+    known = fw.load_known()
+    out = []
+    in0 = False
+    for line in s.split("\n"):
+        if line.startswith("## 0. Summary"):
+            in0 = True
+        elif line.startswith("## 1. "):
+            in0 = False
+        m = re.match(r"^\| (C\d\d) \|", line) if in0 else None
+        if m:
+            pid = m.group(1)
+            num = lambda k: int(k["id"][1:])
+            fx = sorted((k for k in known if k.get("kind") == "fixed" and k["property"] == pid), key=num)
+            fi = sorted((k for k in known if k.get("kind") == "finding" and k["property"] == pid), key=num)
+            cell = "; ".join(x for x in ("repaired: " + ", ".join(k["id"] for k in fx) if fx else "",
+                                         "known findings: " + ", ".join(k["id"] for k in fi) if fi else "") if x) or "holds"
+            cells = line.rstrip().rstrip("|").split("|")
+            cells[-1] = " " + cell + " "
+            line = "|".join(cells) + "|"
+        out.append(line)
+    return "\n".join(out)
+
+
 def main():
     p = os.path.join(VERIF, "DESIGN.md")
-    s = open(p).read()
+    s = summary_last_column(open(p).read())
     for tag, fn in (("STATUS", status_table), ("SEEDED", seeded_table), ("BENIGN", benign_table)):
         b, e = "<!-- BEGIN %s -->" % tag, "<!-- END %s -->" % tag
         if b in s:
